@@ -25,10 +25,10 @@ LEVEL = 'exploration'
 BUDGET_S = {'quick': 42, 'thorough': 640}
 # floors: about 40% of what seed 0 reaches on an otherwise idle machine would be twice these numbers; the quick tier was
 # also run while 16 other check shards competed for the cores (3-4x slower) and has to stay conclusive then
-FLOORS = {'quick': {'scenarios': 25, 'getmap_requests': 160, 'strong_pixels_judged': 4000000, 'weak_pixels': 50000,
-                    'exact_tile_requests': 30, 'exact_pixels_judged': 30000, 'featureinfo_requests': 60,
-                    'featureinfo_regridded': 20, 'wmts_featureinfo_requests': 10, 'reprojected_requests': 70,
-                    'v130_requests': 80, 'mean_shift_judged': 200},
+FLOORS = {'quick': {'scenarios': 200, 'getmap_requests': 1200, 'strong_pixels_judged': 32000000, 'weak_pixels': 400000,
+                    'exact_tile_requests': 240, 'exact_pixels_judged': 240000, 'featureinfo_requests': 480,
+                    'featureinfo_regridded': 160, 'wmts_featureinfo_requests': 80, 'reprojected_requests': 560,
+                    'v130_requests': 640, 'mean_shift_judged': 1600},
           'thorough': {'scenarios': 500, 'getmap_requests': 3500, 'strong_pixels_judged': 100000000, 'weak_pixels': 2000000,
                        'exact_tile_requests': 900, 'exact_pixels_judged': 900000, 'featureinfo_requests': 2000,
                        'featureinfo_regridded': 1000, 'wmts_featureinfo_requests': 500, 'reprojected_requests': 1600,
